@@ -98,6 +98,16 @@ class SDecStr(Sym):
     def __repr__(self):
         return "SDecStr(%r)" % (self.value,)
 
+class SOption(Sym):
+    """a value that is None exactly when `isnone` holds, else `value`: lets
+    `x is None` tests be decided lazily instead of forking when the input is built"""
+    __slots__ = ('isnone', 'value')
+    def __init__(self, isnone, value):
+        self.isnone = isnone        # bool or SBool
+        self.value = value
+    def __repr__(self):
+        return "SOption(%r, %r)" % (self.isnone, self.value)
+
 def is_sym(v):
     return isinstance(v, Sym)
 
